@@ -798,7 +798,12 @@ class Vector3d(Object3d):
             vv = symmetry[-1] * v[idx]
             if vv.size != 0:
                 v[idx] = vv
-            S = symmetry[:3]
+            if symmetry.name == "-4":
+                # Only the rotations about z keep vectors in the upper
+                # hemisphere
+                S = symmetry[~symmetry.improper]
+            else:
+                S = symmetry[:3]
         elif symmetry.name == "-3":
             idx = v.z < 0
             vv = symmetry[3] * v[idx]
